@@ -4,6 +4,7 @@ Used ONLY to search for failing inputs on the implementation side (and to
 build canonical encodings for the decode direction of C02); it never decides
 a property: the deciding comparison is made by Coq against Wire.v.
 """
+import own_lookup
 import struct
 
 
@@ -19,9 +20,9 @@ def enum_width(e):
 def wire_bits(fcp, t, v):
     from fcp.specs import type as T
     if type(t) in (T.UnsignedType, T.SignedType):
-        return _bits(v, t.get_length())
+        return _bits(v, int(t.name[1:]))           # the width is read off the name, independently of NumericType.get_length
     if type(t) is T.EnumType:
-        return _bits(v, enum_width(fcp.get_enum(t.name).unwrap()))
+        return _bits(v, enum_width(next(e for e in fcp.enums if e.name == t.name)))       # own lookup: first enum of that name
     if type(t) is T.FloatType:
         return _bits(struct.unpack("<I", struct.pack("<f", v))[0], 32)
     if type(t) is T.DoubleType:
@@ -35,7 +36,7 @@ def wire_bits(fcp, t, v):
     if type(t) is T.OptionalType:
         return _bits(0, 8) if v is None else _bits(1, 8) + wire_bits(fcp, t.underlying_type, v)
     if type(t) is T.StructType:
-        s = fcp.get_struct(t.name).unwrap()
+        s = own_lookup.struct(fcp, t.name)
         out = []
         for f in sorted(s.fields, key=lambda f: f.field_id):
             out += wire_bits(fcp, f.type, v[f.name])
